@@ -60,19 +60,23 @@ def run(ctx):
         "clear": dict(module="ClearSign_MC", cfg=ctx.pick("ClearSign_L4.cfg", "ClearSign_L6.cfg"), workers=ctx.pick(2, 6)),
     }
     if ctx.thorough:
-        # documentation / non-vacuity: without the exception for the known short-CRC-line defect TLC must refute the strict invariant
+        # documentation only: the model with the PRE-FIX behaviour switched on still yields the two historical counterexamples
+        # (C46-F1 short checksum line skipped, C46-H1 empty header value).  The default model is the repaired code; nothing here is expected of the code.
         jobs["shortcrc"] = dict(module="Armor_MC", cfg="Armor_ShortCrc.cfg", workers=1, expect_violation=True, count=False)
+        jobs["oldempty"] = dict(module="Armor_MC", cfg="Armor_OldEmptyValue.cfg", workers=1, expect_violation=True, count=False)
     res = {}
     with concurrent.futures.ThreadPoolExecutor(max_workers=len(jobs)) as ex:
         futs = {k: ex.submit(ctx.tlc, timeout=ctx.pick(600, 2400), **kw) for k, kw in jobs.items()}
         for k, f in futs.items():
             res[k] = f.result()
-    sc = res.pop("shortcrc", None)
-    if sc is not None:
-        if sc.ok or sc.violated != "CorruptRejectedStrict":
-            raise vlib.Infra("Armor_ShortCrc.cfg no longer yields the documented counterexample (skipped short CRC line): %s" % (sc.violated,))
-        ctx.extra["documented_counterexample"] = ("CorruptRejectedStrict is refuted by TLC: one bit ('5'/'9' -> '=' in the last CRC character) makes the checksum "
-                                                  "line decode to 2 bytes; lineReader.Read skips it and no CRC is checked (finding C46-F1, reproduced on the real code)")
+    for name, inv in (("shortcrc", "CorruptRejected"), ("oldempty", "RoundTrip")):
+        sc = res.pop(name, None)
+        if sc is not None and (sc.ok or sc.violated != inv):
+            raise vlib.Infra("documentation cfg %s no longer yields the historical counterexample: %s" % (name, sc.violated))
+    if ctx.thorough:
+        ctx.extra["documented_historical_counterexamples"] = ("with PreFixShortCrc / PreFixEmptyValue overridden to TRUE TLC refutes CorruptRejected / RoundTrip "
+                                                             "(findings C46-F1 and C46-H1, fixed in /repo 5d307c4 and 91fc6da); a regression of the code shows up as a "
+                                                             "VIOLATION with the original signatures")
     for k, r in res.items():
         if not r.ok:      # a counterexample in the design model alone is never a verdict
             raise vlib.Infra("design model %s: %s violated:\n%s" % (k, r.violated, (r.cex or r.raw[-3000:])[:6000]))
